@@ -1,3 +1,4 @@
+import oracle_storage
 import corr_text
 import oracle_misc
 
@@ -26,8 +27,12 @@ def corr_to_dataset(seed, tier):
     return corr_toxarray.check(seed, tier)
 
 
+def oracle_storage_kinds(seed, tier):
+    return oracle_storage.check(seed, tier)
+
+
 def checks(tier):
-    return [corr_decoders, corr_products, corr_summary, corr_to_dataset, oracle_c13]
+    return [corr_decoders, corr_products, corr_summary, corr_to_dataset, oracle_c13, oracle_storage_kinds]
 
 
 def replay(payload):
